@@ -6,4 +6,4 @@ open AgdbDb
 #print axioms C09_no_leak_on_id_reuse
 #print axioms C09_select_all
 #print axioms C09_select_by_keys
-#print axioms C09_missing_key_partial
+#print axioms C09_missing_key
